@@ -1,6 +1,7 @@
 import NbioVerif.Properties.C01
 import NbioVerif.Properties.ConnTimer
 import NbioVerif.Properties.ConnClose
+import NbioVerif.Lemmas.SrcBridgeConn
 #print axioms ConnFull.inv_run
 #print axioms ConnFull.c01_integrity
 #print axioms ConnFull.c01_drained
@@ -40,3 +41,4 @@ import NbioVerif.Properties.ConnClose
 #print axioms ConnFull.reach_sendfileNoDup
 #print axioms ConnFull.sendfileLoop_denyDup_wl
 #print axioms ConnFull.c01_sendfile_nodup
+#print axioms ConnFull.src_maxCache
